@@ -349,7 +349,8 @@ def makeWallet (C : WalletCrypto) (c : Config) (file : Bytes) : Except WErr Wall
 def makeWalletTyped (C : WalletCrypto) (c : Config) (t : Typed) : Except WErr Wallet :=
   makeWalletG C c (match getpassTyped c t with | .ok (p, _) => some p | .error _ => none)
 
-/-! ### what the signer looks a key up by (hash_to_key_idx / public_xo_to_key_idx / address_to_key) -/
+/-! ### what the signer looks a key up by (hash_to_key_idx / pubhash_to_key_idx / scripthash_to_key_idx /
+    public_xo_to_key_idx / address_to_key) -/
 
 /-- the Hash160 field of `segwit[i]`: the P2SH hash in "segwit" mode, the zero array for bech32/tap
     (NewAddrFromPkScript leaves Hash160 unset for witness programs) -/
@@ -359,6 +360,19 @@ def segwitH160 (C : WalletCrypto) (c : Config) (k : KeyRec) : Bytes :=
 /-- `hash_to_key_idx(h160)`: first i with keys[i].Hash160 == h or segwit[i].Hash160 == h -/
 def hashToKeyIdx (C : WalletCrypto) (c : Config) (keys : List KeyRec) (h : Bytes) : Option Nat :=
   let i := keys.findIdx (fun k => k.h160 == h || segwitH160 C c k == h)
+  if i < keys.length then some i else none
+
+/-- `pubhash_to_key_idx(h160)` (since /repo ebf80672: the lookup of a P2KH script and of a P2WPKH program): first i
+    with keys[i].Hash160 == h — the segwit slot is NOT consulted -/
+def pubhashToKeyIdx (keys : List KeyRec) (h : Bytes) : Option Nat :=
+  let i := keys.findIdx (fun k => k.h160 == h)
+  if i < keys.length then some i else none
+
+/-- `scripthash_to_key_idx(h160)` (the lookup of a P2SH script): first i with segwit[i] != nil (always, for the
+    compressed keys make_wallet derives), segwit[i].SegwitProg == nil (⇔ not bech32/tap mode: there the slot is a
+    witness-program address whose Hash160 field is all zero and must not be compared) and segwit[i].Hash160 == h -/
+def scripthashToKeyIdx (C : WalletCrypto) (c : Config) (keys : List KeyRec) (h : Bytes) : Option Nat :=
+  let i := keys.findIdx (fun k => !bech32Mode c.atype && C.hash160 ([0, 20] ++ k.h160) == h)
   if i < keys.length then some i else none
 
 /-- `public_xo_to_key_idx` -/
